@@ -324,7 +324,7 @@ def run_live(cfg_text, workdir, tag, workers=6, timeout=3000):
     return res
 
 
-def gen_behaviours(cfg_text, workdir, tag, workers=6, timeout=1800, limit=None, seed=0):
+def gen_behaviours(cfg_text, workdir, tag, workers=6, timeout=1800, limit=None, seed=0, budget=None):
     """Direction A: TLC enumerates every run-to-block behaviour of a small configuration (spec/Gen.tla) and prints
     {programs, decisions}; returns them as harness scenarios (plus TLC's state counts)."""
     stage_spec(workdir)
@@ -332,12 +332,26 @@ def gen_behaviours(cfg_text, workdir, tag, workers=6, timeout=1800, limit=None, 
     with open(cfgp, "w") as f:
         f.write(cfg_text)
     md = os.path.join(workdir, f"md_{tag}")
-    rc, out = sh(tlc_cmd(os.path.basename(cfgp), "Gen.tla", md, workers, ("-Xmx8g",)), cwd=workdir, timeout=timeout)
+    complete = True
+    if budget:
+        # a time budget instead of a hard limit: the behaviours TLC has printed when it is used up are what is replayed
+        try:
+            p = subprocess.run(tlc_cmd(os.path.basename(cfgp), "Gen.tla", md, workers, ("-Xmx8g",)), cwd=workdir, stdout=subprocess.PIPE,
+                               stderr=subprocess.STDOUT, timeout=budget, text=True)
+            out = p.stdout
+        except subprocess.TimeoutExpired as ex:
+            out = ex.stdout or ""
+            if isinstance(out, bytes):
+                out = out.decode(errors="replace")
+            out = out[:out.rfind("\n") + 1]
+            complete = False
+    else:
+        rc, out = sh(tlc_cmd(os.path.basename(cfgp), "Gen.tla", md, workers, ("-Xmx8g",)), cwd=workdir, timeout=timeout)
     shutil.rmtree(md, ignore_errors=True)
     v = re.search(r"Invariant (\w+) is violated", out)
     if v:
         return None, {"violated": v.group(1), "out_tail": out[-1500:]}
-    if "No error has been found" not in out:
+    if complete and "No error has been found" not in out:
         m2 = re.search(r"(Error: .*?)(?:Error: The behavior|$)", out, re.S)
         raise ToolError("TLC behaviour generation failed:\n" + (m2.group(1)[:2000] if m2 else out[-2000:]))
     m = re.search(r"(\d+) states generated, (\d+) distinct states found", out)
@@ -354,7 +368,7 @@ def gen_behaviours(cfg_text, workdir, tag, workers=6, timeout=1800, limit=None, 
         # (after the dictated schedule the executor goes on by itself - a task the specification considers blocked may
         # be runnable; bounded, because a configuration with an interval timer never comes to rest by itself)
         scs.append({"id": f"gen-{tag}-{i}", "seed": 0, "horizon": 1000, "clients": b["prog"], "decisions": b["dec"], "max_steps": len(b["dec"]) + 60})
-    return scs, {"states": int(m.group(2)) if m else 0, "transitions": int(m.group(1)) if m else 0, "behaviours": total, "replayed": len(scs)}
+    return scs, {"states": int(m.group(2)) if m else 0, "transitions": int(m.group(1)) if m else 0, "behaviours": total, "replayed": len(scs), "complete": complete}
 
 
 # ------------------------------------------------------------------------------------------------
